@@ -103,6 +103,24 @@ def container_subclass_cases():
         out.append((f"Dict[str, {d}]", t.Dict[str, T], [{'k': v} for v in vals]))
         cls = type('Holds' + T.__name__, (env.PaneBase,), {'__annotations__': {'f': T, 'n': int}, 'n': 0, '__module__': __name__})
         out.append((f"class with field {d}", cls, [{'f': v} for v in vals] + [{'f': vals[0], 'n': 'x'}]))
+    # named tuples (typing.NamedTuple, generic, and collections.namedtuple): read field by field (D61)
+    import collections as _c
+
+    class NTPoint(t.NamedTuple):
+        x: int
+        y: int = 0
+    NT_T, NT_U = t.TypeVar('NT_T'), t.TypeVar('NT_U')
+
+    class NTPair(t.NamedTuple, t.Generic[NT_T, NT_U]):
+        a: NT_T
+        b: NT_U
+    NTOld = _c.namedtuple('NTOld', 'p q')
+    nt_vals = [[1, 2], [1], ['a', 2], (3, 4), [1, 2, 3], [], 'ab', {'x': 1, 'y': 2}, None, [1.5, 2], [True, 2]]
+    out.append(('NamedTuple Point(x: int, y: int = 0)', NTPoint, nt_vals))
+    out.append(('List[NamedTuple]', t.List[NTPoint], [[v] for v in nt_vals[:6]] + [[[1, 2], [3, 4]]]))
+    out.append(('generic NamedTuple Pair[int, str]', NTPair[int, str], [[1, 's'], ['s', 1], [1], [1, 's', 2], [None, 's']]))
+    out.append(('Union[NamedTuple, List[Any]]', t.Union[NTPoint, t.List[t.Any]], [[1, 2], ['a', 'b'], [1], 5]))
+    out.append(('collections.namedtuple', NTOld, [[1, 'x'], [1], [1, 2, 3], 'pq']))
     return out
 
 
